@@ -130,7 +130,7 @@ func init() {
 		"net/url.PathUnescape": func(m *Machine, a []Value, _ *frame) Value { return m.pathUnescape(a[0].(StrV)) },
 		// ---- sort
 		"sort.SliceStable": func(m *Machine, a []Value, c *frame) Value { m.sortSliceStable(a[0], a[1].(FuncV), c); return nil },
-		"sort.Slice":       func(m *Machine, a []Value, c *frame) Value { m.sortSliceStable(a[0], a[1].(FuncV), c); return nil },
+		"sort.Slice":       func(m *Machine, a []Value, c *frame) Value { m.sortSlice(a[0], a[1].(FuncV), c, false); return nil },
 		// ---- regexp stub
 		"regexp.MustCompile": func(m *Machine, a []Value, _ *frame) Value {
 			p, ok := a[0].(StrV).concrete()
@@ -701,32 +701,56 @@ func (m *Machine) pathUnescape(s StrV) Value {
 
 // ---------------------------------------------------------------- sort.SliceStable
 
-func (m *Machine) sortSliceStable(x Value, less FuncV, caller *frame) {
+// sort.Slice / sort.SliceStable: the reflection-based wrappers are replaced, the sorting
+// algorithms themselves (sort.pdqsort_func / sort.stable_func) are executed from the library's
+// source with the caller's less closure and an engine-provided swapper, so that stability and
+// the exact permutation are the real library's for any length.
+func (m *Machine) sortSliceStable(x Value, less FuncV, caller *frame) { m.sortSlice(x, less, caller, true) }
+
+func (m *Machine) sortSlice(x Value, less FuncV, caller *frame, stable bool) {
 	iv, ok := x.(IfaceV)
 	if !ok {
-		m.unsupported("sort.SliceStable argument")
+		m.unsupported("sort.Slice argument")
 	}
 	s, ok := iv.v.(SliceV)
 	if !ok {
-		m.unsupported("sort.SliceStable of non-slice")
+		m.unsupported("sort.Slice of non-slice")
 	}
 	n := s.len
-	if n > 20 {
-		m.unsupported("sort.SliceStable with more than 20 elements (library switches algorithm)")
-	}
-	callLess := func(i, j int) bool {
-		r := m.callValue(less, []Value{m.st.Const(64, uint64(i)), m.st.Const(64, uint64(j))}, caller, nil)
-		return m.branch(r.(*Term))
-	}
-	// insertion sort, as sort.insertionSort does for blocks of <= 20 elements
-	for i := 1; i < n; i++ {
-		for j := i; j > 0 && callLess(j, j-1); j-- {
-			a, b := s.arr.cells[s.off+j], s.arr.cells[s.off+j-1]
-			va, vb := m.loadCell(a), m.loadCell(b)
-			m.storeCell(a, vb)
-			m.storeCell(b, va)
+	swap := FuncV{native: func(m *Machine, args []Value) Value {
+		i := m.concreteInt(args[0].(*Term), "swap index")
+		j := m.concreteInt(args[1].(*Term), "swap index")
+		if i < 0 || j < 0 || i >= n || j >= n {
+			m.goPanic("reflect: slice index out of range (swap)")
 		}
+		a, b := s.arr.cells[s.off+i], s.arr.cells[s.off+j]
+		va, vb := m.loadCell(a), m.loadCell(b)
+		m.storeCell(a, vb)
+		m.storeCell(b, va)
+		return nil
+	}}
+	pkg := m.prog.ImportedPackage("sort")
+	if pkg == nil {
+		m.unsupported("package sort not loaded")
 	}
+	ls := StructV{f: []Value{less, swap}}
+	if stable {
+		fn := pkg.Func("stable_func")
+		if fn == nil {
+			m.unsupported("sort.stable_func not found")
+		}
+		m.callFunction(fn, []Value{ls, m.st.Const(64, uint64(n))}, nil, caller)
+		return
+	}
+	fn := pkg.Func("pdqsort_func")
+	if fn == nil {
+		m.unsupported("sort.pdqsort_func not found")
+	}
+	limit := 0
+	for v := uint(n); v != 0; v >>= 1 {
+		limit++
+	}
+	m.callFunction(fn, []Value{ls, m.st.Const(64, 0), m.st.Const(64, uint64(n)), m.st.Const(64, uint64(limit))}, nil, caller)
 }
 
 // ---------------------------------------------------------------- regexp stub
